@@ -45,6 +45,7 @@ structure VarDef where
   type : TypeRef
   default : Option Value
   loc : Loc
+  dloc : Loc := ⟨0, 0⟩         -- location of the default value literal (an invalid default is reported there)
 deriving Repr, Inhabited
 
 inductive OpKind where | query | mutation | subscription
